@@ -9,6 +9,7 @@
 #![feature(rustc_private)]
 
 extern crate rustc_abi;
+extern crate rustc_ast;
 extern crate rustc_driver;
 extern crate rustc_hir;
 extern crate rustc_interface;
@@ -33,7 +34,71 @@ use rustc_middle::ty::{self, Instance, Ty, TyCtxt, TypingEnv};
 use rustc_span::Span;
 use std::fmt::Write as _;
 
-struct Cb;
+#[derive(Default)]
+struct Cb {
+    ast_attrs: String,
+}
+
+fn ast_attr_snips(tcx: TyCtxt<'_>, attrs: &[rustc_ast::ast::Attribute]) -> String {
+    let sm = tcx.sess.source_map();
+    let mut s = String::from("[");
+    let mut first = true;
+    for a in attrs {
+        if a.is_doc_comment() {
+            continue;
+        }
+        if let Ok(sn) = sm.span_to_snippet(a.span) {
+            if !first {
+                s.push(',');
+            }
+            first = false;
+            s.push_str(&esc(&sn));
+        }
+    }
+    s.push(']');
+    s
+}
+
+fn ast_fields(tcx: TyCtxt<'_>, vd: &rustc_ast::ast::VariantData) -> String {
+    let mut s = String::from("{");
+    let mut first = true;
+    for (i, f) in vd.fields().iter().enumerate() {
+        if !first {
+            s.push(',');
+        }
+        first = false;
+        let name = f.ident.map(|i| i.to_string()).unwrap_or_else(|| i.to_string());
+        let _ = write!(s, "{}:{}", esc(&name), ast_attr_snips(tcx, &f.attrs));
+    }
+    s.push('}');
+    s
+}
+
+fn ast_walk(tcx: TyCtxt<'_>, path: &str, items: &[Box<rustc_ast::ast::Item>], out: &mut String) {
+    use rustc_ast::ast::{ItemKind, ModKind};
+    for it in items {
+        match &it.kind {
+            ItemKind::Mod(_, ident, ModKind::Loaded(sub, ..)) => {
+                ast_walk(tcx, &format!("{}::{}", path, ident), sub, out);
+            }
+            ItemKind::Enum(ident, _, def) => {
+                let _ = write!(out, "{{\"k\":\"astattrs\",\"id\":{},\"attrs\":{},\"variants\":{{", esc(&format!("{}::{}", path, ident)), ast_attr_snips(tcx, &it.attrs));
+                for (i, v) in def.variants.iter().enumerate() {
+                    if i > 0 {
+                        out.push(',');
+                    }
+                    let _ = write!(out, "{}:{{\"attrs\":{},\"fields\":{}}}", esc(&v.ident.to_string()), ast_attr_snips(tcx, &v.attrs), ast_fields(tcx, &v.data));
+                }
+                out.push_str("}}\n");
+            }
+            ItemKind::Struct(ident, _, vd) | ItemKind::Union(ident, _, vd) => {
+                let _ = write!(out, "{{\"k\":\"astattrs\",\"id\":{},\"attrs\":{},\"variants\":{{{}:{{\"attrs\":[],\"fields\":{}}}}}}}\n",
+                    esc(&format!("{}::{}", path, ident)), ast_attr_snips(tcx, &it.attrs), esc(&ident.to_string()), ast_fields(tcx, vd));
+            }
+            _ => {}
+        }
+    }
+}
 
 fn esc(s: &str) -> String {
     let mut o = String::with_capacity(s.len() + 2);
@@ -748,6 +813,18 @@ fn dump_adt(tcx: TyCtxt<'_>, did: DefId, out: &mut String) {
 }
 
 impl Callbacks for Cb {
+    fn after_expansion<'tcx>(&mut self, _c: &rustc_interface::interface::Compiler, tcx: TyCtxt<'tcx>) -> Compilation {
+        if std::env::var("MIRFACTS_OUT").is_ok() {
+            let guard = tcx.resolver_for_lowering().borrow();
+            let krate = &guard.1;
+            let name = tcx.crate_name(rustc_hir::def_id::LOCAL_CRATE).to_string();
+            let mut out = String::new();
+            ast_walk(tcx, &name, &krate.items, &mut out);
+            self.ast_attrs = out;
+        }
+        Compilation::Continue
+    }
+
     fn after_analysis<'tcx>(&mut self, _c: &rustc_interface::interface::Compiler, tcx: TyCtxt<'tcx>) -> Compilation {
         let outdir = match std::env::var("MIRFACTS_OUT") {
             Ok(d) => d,
@@ -763,6 +840,7 @@ impl Callbacks for Cb {
             esc(&nonce),
             tcx.sess.is_test_crate()
         );
+        out.push_str(&self.ast_attrs);
         // ADTs
         let items = tcx.hir_crate_items(());
         for id in items.free_items() {
@@ -807,5 +885,5 @@ fn main() {
     if args.len() > 1 && (args[1].ends_with("rustc") || args[1].contains("/rustc")) {
         args.remove(1);
     }
-    rustc_driver::run_compiler(&args, &mut Cb);
+    rustc_driver::run_compiler(&args, &mut Cb::default());
 }
